@@ -13,6 +13,7 @@ Cartesian U tensors, identity/behavioural disjointness of result and input, snap
 import itertools
 import json
 import math
+import os
 import re
 import struct
 
@@ -523,6 +524,47 @@ def oracle_two_step(spec, p, q):
     return fails, same_order
 
 
+# ---------------------------------------------------------------- geometry of the model = lattice.py
+GEOM = "DS.Props.SrcExpandGeom"
+
+
+def geom_tie(ck):
+    """`Expand.Cell` (the lattice record of the supercell / cut-out models) has its own `base recbase normbase recnormbase
+    cartesian fractional norm dist scale`; DS.Props.SrcExpandGeom identifies each of them with the transliteration of the
+    current lattice.py (`DS/Gen/SrcLattice.lean`) and the a/b/c update of supercell with `Src.setLatPar`.  Call AFTER
+    `ck.source_tie("DS.Props.SrcLattice")` and `ck.source_tie("DS.Props.SrcExpand")`: those regenerate the two generated
+    files from the tree under examination, which is what makes this a tie to the current source.  Returns (ok, info) for
+    `ck.tie_verdict` (a module that no longer builds is a broken tie, not a verdict)."""
+    ok, info = ck.lean_obligations(GEOM)
+    broken = []
+    if not ok:
+        try:
+            lines = open(os.path.join(common.LEAN, *GEOM.split(".")) + ".lean", encoding="utf-8").read().split("\n")
+        except OSError:
+            lines = []
+        for f, ln, msg in info.get("errors", []):
+            if f.endswith("SrcExpandGeom.lean"):
+                at = min(int(ln), len(lines)) - 1
+                # "Not a definitional equality" is reported at the start of the declaration (its docstring): look forward
+                for k in (range(at, len(lines)) if msg.startswith("Not a definitional equality") else range(at, -1, -1)):
+                    m = re.match(r"\s*theorem\s+(\S+)", lines[k])
+                    if m:
+                        broken.append(m.group(1))
+                        break
+        info["broken_theorems"] = sorted(set(broken))
+    ck.coverage.setdefault("source_tie", {})[GEOM] = {"ok": ok, "theorems": len(info.get("theorems", [])), "broken": sorted(set(broken)),
+                                                      "untranslatable": {}}
+    return ok, info
+
+
+GEOM_ASSUMPTION = (
+    "source tie DS.Props.SrcExpandGeom: the lattice record of the expansion model (Expand.Cell: base, recbase, normbase, recnormbase, "
+    "cartesian, fractional, norm, dist, the a/b/c update) is proved equal (rfl, every scalar type) to the transliterated "
+    "Lattice.setLatPar / cartesian / fractional / norm / dist of the current lattice.py for the object state built from the seven "
+    "lattice data; for an object that reached its state otherwise (setLatBase, copy, reciprocal) this rests on coherence, proved over "
+    "the reals for valid histories (C10 induction) and observed here by the rebased / stepwise strata")
+
+
 # ---------------------------------------------------------------- the check
 def compare_with_model(spec, mno, mout, T):
     """model output vs real result; returns list of disagreement strings."""
@@ -561,6 +603,7 @@ def run(ck):
     # the cell-scaling theorems speak about the Lattice model (setLatPar on the copied lattice): tie it to lattice.py
     tie_ok, tie_info = ck.source_tie("DS.Props.SrcLattice")
     tie2_ok, tie2_info = ck.source_tie("DS.Props.SrcExpand")   # supercell: index list, image coordinates, new cell, guards
+    geom_ok, geom_info = geom_tie(ck)   # Expand.Cell's own base/recbase/normbase/cartesian/... and the a/b/c update = lattice.py
     try:
         import diffpy.structure.expansion  # noqa: F401
         from diffpy.structure import PDFFitStructure  # noqa: F401
@@ -581,6 +624,8 @@ def run(ck):
 
     # every multiplier triple on fresh random structures
     reps = 2 if quick else 8
+    if not (tie_ok and tie2_ok and geom_ok):
+        reps *= 2   # a broken tie is not a verdict: search harder for a concrete failing input
     for t in triples:
         for r_ in range(reps):
             cases.append((gs(), list(t), "valid", "tuple" if r_ == 0 else rng.choice(FORMS)))
@@ -731,10 +776,12 @@ def run(ck):
         "never writes lattice arrays in place, behavioural disjointness is checked by writing through the result's public API",
         "non-integer multipliers are outside the model (the code truncates them)",
         "object identity is modelled by allocation order on a heap of atom objects (DS.Expand.supercellH), validated against CPython by the identity oracle",
+        GEOM_ASSUMPTION,
     ]
     ck.coverage["trusted_base"] += ["harness/c15.py oracle (plain numpy geometry, textbook triclinic base)", "compiled Lean model driver (DS.Expand.expandHandle)"]
     ck.tie_verdict(tie_ok, tie_info, "lattice.py")
     ck.tie_verdict(tie2_ok, tie2_info, "supercell_mod.py")
+    ck.tie_verdict(geom_ok, geom_info, "lattice.py setLatPar / cartesian / fractional / norm / dist vs the lattice record of the supercell model")
     if not ok and not ck.violations:
         ck.fail("lean-build", "Lean obligations of C15 no longer check: %r" % (info["failed_modules"],),
                 {"kind": "proof-obligation", "theorem": info["failed_modules"], "errors": info["errors"]}, no_failing_input=True)
@@ -755,6 +802,16 @@ def replay(path):
     common.use_repo()
     r = json.load(open(path))
     inp = r.get("input", {})
+    if r.get("kind") == "import":
+        try:
+            import importlib
+
+            importlib.import_module("diffpy.structure.expansion")
+        except Exception as e:  # noqa: BLE001
+            print("FAILS import: %r" % (e,))
+            return 1
+        print("the package imports")
+        return 0
     try:
         if r.get("kind") == "two-step":
             fails, _ = oracle_two_step(inp["structure"], tuple(inp["p"]), tuple(inp["q"]))
